@@ -15,3 +15,10 @@ def rows(f, path, **kw):
     from acverif.sym import summarize
     b = inlined_body(f, f.body(path))
     return b, summarize(f, b, **kw)
+
+
+def ctx(tree=None, prop='C03'):
+    """Ctx over the facts of a (patched) tree"""
+    from acverif.core import Ctx, extract
+    f = Facts(extract(repo=tree))
+    return Ctx(prop, f, 'quick')
